@@ -1033,3 +1033,70 @@ Proof.
   split; [apply HU|]. intros Hs. destruct (HL Hs) as [_ EQ]. split; [apply EQ|].
   unfold pending. destruct (aget id (s_ans s)) as [a|]; [destruct (a_ret a)|]; lia.
 Qed.
+
+(* the Return carries the outcome the target produced: results for a normal return, an exception
+   for an exception; afterwards the answer owes nothing *)
+Lemma send_exception_in : forall id a s s1 o ab, send_exception cfg_fixed id a s = Ok (s1, o, ab) -> s_shut s = false ->
+  In (OReturnExc id) o.
+Proof.
+  intros id a s s1 o ab H Hs. unfold send_exception in H. rewrite Hs in H. destruct (a_fin a).
+  - destruct (destroy cfg_fixed id _ _) as [[[s2 o2] e2]| |]; simpl in H; try discriminate. inversion H; subst. left. reflexivity.
+  - inversion H; subst. left. reflexivity.
+Qed.
+
+Lemma send_return_in : forall id a k rct s s1 o ab, send_return cfg_fixed id a k rct s = Ok (s1, o, ab) -> s_shut s = false ->
+  exists ds, In (OReturnRes id ds) o.
+Proof.
+  intros id a k rct s s1 o ab H Hs. unfold send_return in H.
+  destruct (fill_caps cfg_fixed (rct_caps rct) s) as [[[s0 ds] refs]| |]; cbn [bind] in H; try discriminate.
+  rewrite Hs in H. exists ds. destruct (a_fin a).
+  - destruct (destroy cfg_fixed id _ _) as [[[s2 o2] e2]| |]; simpl in H; try discriminate. inversion H; subst. left. reflexivity.
+  - inversion H; subst. left. reflexivity.
+Qed.
+
+Lemma proc_settled : forall id s o s1, proc id s o s1 -> returns id o = 1%nat -> pending id s1 = 0%nat.
+Proof.
+  intros id s o s1 ([(a1 & A & [[R1 R2]|[R1 R2]])|[A R]] & _) HR; unfold pending; rewrite A.
+  - rewrite aget_aput, Z.eqb_refl, R1. reflexivity.
+  - rewrite R2 in HR. discriminate.
+  - rewrite aget_adel, Z.eqb_refl. reflexivity.
+Qed.
+
+Theorem app_return_result : forall k r s s0 o0 ab id a, app_return cfg_fixed k r s = Ok (s0, o0, ab) -> live s ->
+  find_running k (s_ans s) = Some (id, a) ->
+  match r with ARExc => In (OReturnExc id) o0 | _ => exists ds, In (OReturnRes id ds) o0 end.
+Proof.
+  intros k r s s0 o0 ab id a H L Ef. unfold app_return in H. rewrite Ef in H.
+  destruct (release_caps cfg_fixed (a_args a) s) as [[s1 o1]| |] eqn:E1; cbn [bind] in H; try discriminate.
+  apply release_caps_inv in E1. destruct E1 as [C1 _].
+  assert (L1 : live s1) by (eapply live_core; eauto).
+  apply find_running_some in Ef. destruct Ef as [[j Hj] Hin].
+  assert (L1' : live (set_ans (aput id (set_a_args [] a) (s_ans s1)) s1)).
+  { apply live_set_ans; [exact L1|]. apply ans_ok_aput; [apply (ans_of_live _ L1)|]. exact (ans_of_live _ L _ _ Hin). }
+  destruct r as [fs| |].
+  - destruct (results_of fs) as [kc rct].
+    match type of H with (bind ?x _) = _ => destruct x as [[[s3 o3] b3]| |] eqn:E3; cbn [bind] in H; try discriminate end.
+    match type of H with (bind ?x _) = _ => destruct x as [[[s4 o4] b4]| |] eqn:E4; cbn [bind] in H; try discriminate end.
+    inversion H; subst.
+    assert (L3 : live s3).
+    { match type of E3 with drain _ ?r ?k ?rc ?l1 ?l2 ?sx = _ =>
+        assert (Lx : live sx) by (eapply live_core; [exact L1'|apply core_addrefs_local]);
+        pose proof (drain_ok r k rc l1 l2 sx Lx) as P; rewrite E3 in P; simpl in P; apply P end. }
+    destruct (send_return_in _ _ _ _ _ _ _ _ E4 (live_shut _ L3)) as [ds Hds]. exists ds.
+    apply in_or_app. right. apply in_or_app. right. exact Hds.
+  - match type of H with (bind ?x _) = _ => destruct x as [[[s3 o3] b3]| |] eqn:E3; cbn [bind] in H; try discriminate end.
+    match type of H with (bind ?x _) = _ => destruct x as [[[s4 o4] b4]| |] eqn:E4; cbn [bind] in H; try discriminate end.
+    inversion H; subst.
+    assert (L3 : live s3).
+    { match type of E3 with drain _ ?r ?k ?rc ?l1 ?l2 ?sx = _ =>
+        pose proof (drain_ok r k rc l1 l2 sx L1') as P; rewrite E3 in P; simpl in P; apply P end. }
+    destruct (send_return_in _ _ _ _ _ _ _ _ E4 (live_shut _ L3)) as [ds Hds]. exists ds.
+    apply in_or_app. right. apply in_or_app. right. exact Hds.
+  - match type of H with (bind ?x _) = _ => destruct x as [[[s3 o3] b3]| |] eqn:E3; cbn [bind] in H; try discriminate end.
+    match type of H with (bind ?x _) = _ => destruct x as [[[s4 o4] b4]| |] eqn:E4; cbn [bind] in H; try discriminate end.
+    inversion H; subst.
+    assert (L3 : live s3).
+    { match type of E3 with reject_all _ ?l ?sx = _ =>
+        pose proof (reject_all_ok l sx L1') as P; rewrite E3 in P; simpl in P; apply P end. }
+    apply in_or_app. right. apply in_or_app. right. eapply send_exception_in; eauto. apply L3.
+Qed.
